@@ -59,6 +59,70 @@ def h_accumulate(ex, cap, limit, K, nkeys):
     return {"key": okey, "val": oval}
 
 
+def h_merge_step(ex, occ, lens, tail, slack):
+    """One inductive step of the run stack: merge_sum_duplicates from an ARBITRARY state satisfying the representation
+    invariant of the accumulator (a binary counter of sorted runs), as left by coo_sum_duplicates before it calls it.
+
+    occ[i] (i = 0 .. depth-1, the top level is always occupied) says whether level i holds a run, lens[i] its length.
+    With b_i = |min[i]|:  0 = b_depth <= ... <= b_0 <= ind;  an occupied level i holds the run [b_{i+1}, b_i) with
+    strictly increasing keys and min[i] = b_i > 0;  an empty level k has min[k] = -b_j for the nearest occupied level
+    j > k;  [b_0, ind) is the freshly sorted, de-duplicated tail;  slots >= ind hold arbitrary stale data.
+    Histories of any length reach only such states, so one step from all of them covers every history."""
+    cu = loader.load("vectorizers.coo_utils")
+    depth = len(occ)
+    assert occ[-1]
+    n_used = sum(l for o, l in zip(occ, lens) if o) + tail
+    cap = n_used + slack
+    nmin = max(2 * depth + 2, 4)
+    key = [fresh_int("key%d" % j, 0, 5) for j in range(cap)]
+    val = [fresh_real("val%d" % j) for j in range(cap)]
+    mins = [0] * nmin
+    pos = 0
+    bounds = []
+    for i in range(depth - 1, -1, -1):
+        if occ[i]:
+            a, b = pos, pos + lens[i]
+            for j in range(a, b - 1):
+                assume(key[j] < key[j + 1])
+            pos = b
+            mins[i] = b
+        else:
+            mins[i] = -pos
+        bounds.append(pos)
+    a, b = pos, pos + tail
+    for j in range(a, b - 1):
+        assume(key[j] < key[j + 1])
+    ind = b
+    for j in range(ind):
+        assume(val[j] > 0)
+    register("keys", key); register("vals", val); register("min", list(mins)); register("ind", ind); register("depth", depth)
+    coo = cu.CooArray(np.array(key, dtype=np.int32), np.array([2 * k + 1 for k in key], dtype=np.int32),
+                      np.array(val, dtype=np.float32), np.array(key, dtype=np.int64), np.array([ind], dtype=np.int64),
+                      np.array(mins, dtype=np.int64), np.array([depth], dtype=np.int64))
+    call(cu.merge_sum_duplicates, coo)
+    n2 = coo.ind[0]
+    check("fill pointer stays within the buffer", sand(n2 >= 0, n2 <= cap))
+    n2 = int(n2)
+    probe = fresh_int("probe_key", 0, 5)
+    before = sum((ite(key[j] == probe, val[j], Q(0)) for j in range(ind)), Q(0))
+    after = sum((ite(coo.key[j] == probe, to_real(coo.val[j]), Q(0)) for j in range(n2)), Q(0))
+    check("per key: the accumulated value is preserved by the merge", before == after)
+    check("row / col stay with their key", sand(*[sand(coo.row[j] == coo.key[j], coo.col[j] == 2 * coo.key[j] + 1) for j in range(n2)]))
+    # the invariant is re-established: the unsorted tail is empty, boundaries are ordered, occupied runs are sorted
+    d2 = int(coo.depth[0])
+    m2 = [coo.min[i] for i in range(d2 + 1)]
+    check("after the merge the unsorted tail is empty (|min[0]| == ind)", abs(m2[0]) == n2)
+    conds = [m2[d2 - 1] > 0] if d2 >= 1 else [False]
+    for i in range(d2):
+        lo = abs(m2[i + 1]) if i + 1 < d2 else 0
+        conds.append(lo <= abs(m2[i]))
+        if bool(m2[i] > 0):
+            lo_c, hi_c = int(lo), int(m2[i])
+            conds.append(sand(*[coo.key[j] < coo.key[j + 1] for j in range(lo_c, hi_c - 1)]))
+    check("the representation invariant holds again (top level occupied, ordered boundaries, sorted runs)", sand(*conds))
+    return {"key": coo.key[:n2], "val": coo.val[:n2]}
+
+
 def cases(tier):
     cs = []
     if tier == "quick":
@@ -72,4 +136,22 @@ def cases(tier):
                        bounds={"capacity": cap, "COO_QUICKSORT_LIMIT": limit, "appends": K, "distinct keys": nkeys, "values": "reals > 0"},
                        assumptions=["COO_QUICKSORT_LIMIT lowered from 65536 to %d (module global, also frozen into the compiled code for the replay)" % limit],
                        functions=FUNCS))
+    # inductive step over run-stack states: every occupancy pattern of a stack of depth <= 3 (4 thorough)
+    pats = []
+    for depth in ((1, 2, 3) if tier == "quick" else (1, 2, 3, 4)):
+        for occ in itertools.product((False, True), repeat=depth - 1):
+            pats.append(list(occ) + [True])
+    lens_opts = [1, 2] if tier == "quick" else [1, 2, 3]
+    for occ in pats:
+        for L in lens_opts:
+            for tail in ((1, 2) if tier == "quick" else (1, 2, 3)):
+                if tier == "quick" and (L + tail > 3 or (len(occ) == 3 and L + tail > 2)):
+                    continue        # the quick tier keeps the small states of every occupancy pattern
+                lens = [L if o else 0 for o in occ]
+                cs.append(Case("merge_step[occupied=%s,run=%d,tail=%d]" % ("".join("1" if o else "0" for o in occ), L, tail), h_merge_step,
+                               dict(occ=occ, lens=lens, tail=tail, slack=2), replay="C04:replay_merge_step", witness="C04:witness_merge_step",
+                               functions=FUNCS, max_witness=3,
+                               bounds={"run stack occupancy (level 0 first)": occ, "run length": L, "sorted tail length": tail,
+                                       "keys": "symbolic in 0..5", "values": "reals > 0", "stale slots": 2},
+                               assumptions=["representation invariant of the run stack as stated in h_merge_step (derived from merge_sum_duplicates; every state the drivers can reach satisfies it)"]))
     return cs
